@@ -1,6 +1,7 @@
 package checks
 
 import (
+	"os"
 	"bytes"
 	"encoding/hex"
 	"encoding/json"
@@ -142,8 +143,14 @@ var c04Decoders = map[string]func(in c04Input) error{
 	"tcpcl-sender-mru": func(in c04Input) error {
 		b := gen.Spec{Dst: "dtn://d/", Src: "dtn://s/", Rpt: "dtn://s/", PCRC: 2, Time: DtnNow(), Lifetime: 60000, PayLen: 40, PaySeed: 1}.Build()
 		out, segs := vh.SendWithMRU(b, in.N)
+		if os.Getenv("VERIF_DEBUG") != "" {
+			fmt.Fprintf(os.Stderr, "mru %d: %s (%d segments)\n", in.N, out, segs)
+		}
 		if strings.HasPrefix(out, "PANIC") || strings.HasPrefix(out, "SPIN") || strings.HasPrefix(out, "HANG") {
 			panic(fmt.Sprintf("%s (segments %d)", out, segs))
+		}
+		if out != "ok" {
+			return fmt.Errorf("%s", out) // counted as "decoded with error"; MRU 0 is refused, every other value must work
 		}
 		return nil
 	},
@@ -476,7 +483,7 @@ func runC04(r *ev.Run, thorough bool) int {
 	}
 	flush()
 	var mu sync.Mutex
-	done, errs, acc := 0, 0, 0
+	done, errs, acc, mruOK := 0, 0, 0, 0
 	perDec := map[string]int{}
 	for _, in := range all {
 		perDec[in.Dec]++
@@ -513,6 +520,9 @@ func runC04(r *ev.Run, thorough bool) int {
 			done += o.Done
 			errs += o.Errors
 			acc += o.Accepted
+			if len(ts[i].Inputs) == 1 && ts[i].Inputs[0].Dec == "tcpcl-sender-mru" {
+				mruOK += o.Accepted
+			}
 			for _, v := range o.Viol {
 				r.Violation("C04/"+v.Key, "input", v.Desc, map[string]string{"desc": v.Desc})
 			}
@@ -528,6 +538,10 @@ func runC04(r *ev.Run, thorough bool) int {
 	}
 	r.Add("decoded_with_error", int64(errs))
 	r.Add("decoded_ok", int64(acc))
+	r.Add("sends_completed_with_declared_mru", int64(mruOK))
+	if mruOK == 0 {
+		r.Violation("C04/vacuous", "none", "no transfer with a peer-declared segment MRU completed: the sender harness observed nothing", nil)
+	}
 	r.Sample(all[len(all)/3])
 	r.Sample(all[len(all)/2])
 	if done == 0 || errs == 0 || acc == 0 {
